@@ -86,6 +86,26 @@ def gen_for(key, text):
             new_line = m.group(1) + '!(' + cond + ')' + m.group(3)
             muts.append(('negate if: ' + cond[:50], off, '\n'.join(lines[:li] + [new_line] + lines[li + 1:])))
         off += len(line) + 1
+    # wrong-variable slips: swap two identifiers of the same kind that both occur in the function
+    GROUPS = [['nonce', 'aud'], ['expected_nonce', 'expected_aud'], ['serialized_sd_jwt', 'serialized_key_binding_jwt'],
+              ['hash_to_disclosure', 'hash_to_decoded_disclosure'], ['key_binding_jwt_header', 'key_binding_jwt_payload'],
+              ['signed_sd_jwt', 'serialized_sd_jwt'], ['subtree', 'object'], ['subtree_from_here', 'value'], ['sd_jwt_claims', 'claims_to_disclose'],
+              ['claim_to_disclose', 'sd_jwt_claims'], ['issuer_key', 'holder_key'], ['protected', 'payload', 'signature'],
+              ['unverified_sd_jwt', 'unverified_input_key_binding_jwt'], ['strategy_for_child', 'sd_strategy'], ['digest', 'key'], ['sd_jwt_payload', 'verified_claims']]
+    for g in GROUPS:
+        for a1 in g:
+            for b1 in g:
+                if a1 == b1:
+                    continue
+                for m in re.finditer(r'(?<![\w])' + re.escape(a1) + r'(?![\w])', text):
+                    if not in_code(m.start()):
+                        continue
+                    # skip declarations (parameter lists, let bindings, struct-literal field names)
+                    before = text[max(0, m.start() - 6):m.start()]
+                    after = text[m.end():m.end() + 2]
+                    if after.startswith(':') or before.rstrip().endswith(('let', 'mut')):
+                        continue
+                    muts.append(('ident %s->%s' % (a1, b1), m.start(), text[:m.start()] + b1 + text[m.end():]))
     seen, out = set(), []
     for desc, pos, new in muts:
         h = hashlib.sha1(new.encode()).hexdigest()
